@@ -794,7 +794,42 @@ func gfsCorpus() []run.Case {
 	for _, c := range cases {
 		out = append(out, gfsExec(c))
 	}
+	if os.Getenv("GRIDFS_PROBE_HANG") != "" {
+		out = append(out, gfsHangProbe())
+	}
 	return out
+}
+
+// gfsHangProbe (opt-in, GRIDFS_PROBE_HANG=1): Write with a chunk size above the upload buffer never
+// returns once the buffer is full (upload(false) cuts nothing, copy() copies nothing).  The spinning
+// goroutine is leaked on purpose; there is no model comparison (the model reports Err.diverged, see the
+// example in Props/C18.lean).
+func gfsHangProbe() run.Case {
+	req := fmt.Sprintf(`{"probe":"write","chunk":%d,"buf":%d,"len":%d}`, gfsBuf+1, gfsBuf, gfsBuf+1)
+	c := run.Case{Req: "", Impl: `{"ok":"returned"}`, Tags: []string{"kind:hang-probe"}}
+	client, engine, err := lungo.Open(nil, lungo.Options{Store: lungo.NewMemoryStore()})
+	if err != nil {
+		return c
+	}
+	_ = engine // left open: the spinning goroutine still uses it
+	b := lungo.NewBucket(client.Database("gfs"), options.GridFSBucket().SetName("fs"))
+	us, err := b.OpenUploadStreamWithID(nil, primitive.NewObjectID(), "file", options.GridFSUpload().SetChunkSizeBytes(int32(gfsBuf+1)))
+	if err != nil {
+		return c
+	}
+	done := make(chan struct{})
+	go func() {
+		defer func() { _ = recover(); close(done) }()
+		_, _ = us.Write(make([]byte, gfsBuf+1))
+	}()
+	select {
+	case <-done:
+	case <-time.After(3 * time.Second):
+		c.Impl = `{"ok":"spinning"}`
+		c.Viols = []run.Violation{{Property: "C18", What: "Write does not return when the chunk size exceeds the upload buffer",
+			Witness: "write-spins:chunk>buffer", Req: req, Detail: "no return within 3s; upload(false) cuts no chunk, copy() copies 0 bytes"}}
+	}
+	return c
 }
 
 func init() {
